@@ -54,104 +54,133 @@ func runTagKeep(c *core.Ctx) {
 	sort.Slice(methods, func(i, j int) bool { return methods[i].Name() < methods[j].Name() })
 	sites := 0
 	for _, fn := range methods {
-		recv := fn.Params[0]
-		// entryIndexOf: v is (part of) receiver.Manifests[idx]...: returns idx and the path below the element
-		entryIndexOf := func(v ssa.Value) (ssa.Value, []string, bool) {
-			var rev []string
-			var idx ssa.Value
-			v = an.Strip(v)
-			for i := 0; i < 24; i++ {
-				switch x := v.(type) {
-				case *ssa.UnOp:
-					if x.Op != token.MUL {
-						return nil, nil, false
-					}
-					v = x.X
-				case *ssa.FieldAddr:
-					st := an.Deref(x.X.Type()).Underlying().(*types.Struct)
-					name := st.Field(x.Field).Name()
-					if idx != nil {
-						if name == "Manifests" && x.X == ssa.Value(recv) {
-							out := make([]string, len(rev))
-							for k := range rev {
-								out[k] = rev[len(rev)-1-k]
+		type frameFns struct {
+			entryIndexOf     func(v ssa.Value) (ssa.Value, []string, bool)
+			isManifestsField func(addr ssa.Value) bool
+			mentions         func(v ssa.Value, idx ssa.Value, d int) bool
+		}
+		var mkFrame func(fn *ssa.Function) frameFns
+		mkFrame = func(fn *ssa.Function) frameFns {
+			recv := fn.Params[0]
+			// entryIndexOf: v is (part of) receiver.Manifests[idx]...: returns idx and the path below the element
+			entryIndexOf := func(v ssa.Value) (ssa.Value, []string, bool) {
+				var rev []string
+				var idx ssa.Value
+				v = an.Strip(v)
+				for i := 0; i < 24; i++ {
+					switch x := v.(type) {
+					case *ssa.UnOp:
+						if x.Op != token.MUL {
+							return nil, nil, false
+						}
+						v = x.X
+					case *ssa.FieldAddr:
+						st := an.Deref(x.X.Type()).Underlying().(*types.Struct)
+						name := st.Field(x.Field).Name()
+						if idx != nil {
+							if name == "Manifests" && x.X == ssa.Value(recv) {
+								out := make([]string, len(rev))
+								for k := range rev {
+									out[k] = rev[len(rev)-1-k]
+								}
+								return idx, out, true
 							}
-							return idx, out, true
+							return nil, nil, false
+						}
+						rev = append(rev, name)
+						v = x.X
+					case *ssa.Field:
+						st := x.X.Type().Underlying().(*types.Struct)
+						if idx != nil {
+							return nil, nil, false
+						}
+						rev = append(rev, st.Field(x.Field).Name())
+						v = x.X
+					case *ssa.IndexAddr:
+						if idx != nil {
+							return nil, nil, false
+						}
+						idx = x.Index
+						v = x.X
+					case *ssa.Alloc:
+						// a local copy of the element: `md := i.Manifests[mi]`
+						if s := an.SingleStore(x); s != nil {
+							v = s
+							continue
 						}
 						return nil, nil, false
-					}
-					rev = append(rev, name)
-					v = x.X
-				case *ssa.Field:
-					st := x.X.Type().Underlying().(*types.Struct)
-					if idx != nil {
+					default:
 						return nil, nil, false
 					}
-					rev = append(rev, st.Field(x.Field).Name())
-					v = x.X
-				case *ssa.IndexAddr:
-					if idx != nil {
-						return nil, nil, false
-					}
-					idx = x.Index
-					v = x.X
-				case *ssa.Alloc:
-					// a local copy of the element: `md := i.Manifests[mi]`
-					if s := an.SingleStore(x); s != nil {
-						v = s
-						continue
-					}
-					return nil, nil, false
-				default:
-					return nil, nil, false
 				}
+				return nil, nil, false
 			}
-			return nil, nil, false
-		}
-		isManifestsField := func(addr ssa.Value) bool {
-			fa, ok := addr.(*ssa.FieldAddr)
-			if !ok || fa.X != ssa.Value(recv) {
+			isManifestsField := func(addr ssa.Value) bool {
+				fa, ok := addr.(*ssa.FieldAddr)
+				if !ok || fa.X != ssa.Value(recv) {
+					return false
+				}
+				st := an.Deref(fa.X.Type()).Underlying().(*types.Struct)
+				return st.Field(fa.Field).Name() == "Manifests"
+			}
+			// mentions: the condition reads the annotations of entry idx
+			var mentions func(v ssa.Value, idx ssa.Value, d int) bool
+			mentions = func(v ssa.Value, idx ssa.Value, d int) bool {
+				if v == nil || d > 8 {
+					return false
+				}
+				if ix, pth, ok := entryIndexOf(v); ok && ix == idx && len(pth) >= 1 && pth[0] == "Annotations" {
+					return true
+				}
+				switch x := v.(type) {
+				case *ssa.BinOp:
+					return mentions(x.X, idx, d+1) || mentions(x.Y, idx, d+1)
+				case *ssa.UnOp:
+					return mentions(x.X, idx, d+1)
+				case *ssa.Lookup:
+					return mentions(x.X, idx, d+1)
+				case *ssa.Extract:
+					return mentions(x.Tuple, idx, d+1)
+				case *ssa.Call:
+					if bi, ok := x.Call.Value.(*ssa.Builtin); ok && bi.Name() == "len" {
+						return mentions(x.Call.Args[0], idx, d+1)
+					}
+					// a predicate applied to (a record built from) the entry's annotations: ref.accepts(cur)
+					if _, isBuiltin := x.Call.Value.(*ssa.Builtin); !isBuiltin {
+						for _, a := range x.Call.Args {
+							if mentions(a, idx, d+1) {
+								return true
+							}
+							if ld, ok := an.Strip(a).(*ssa.UnOp); ok && ld.Op == token.MUL {
+								for _, vs := range structStores(ld.X) {
+									for _, sv := range vs {
+										if mentions(sv, idx, d+1) {
+											return true
+										}
+									}
+								}
+							}
+						}
+					}
+				case *ssa.ChangeType:
+					return mentions(x.X, idx, d+1)
+				case *ssa.Convert:
+					return mentions(x.X, idx, d+1)
+				case *ssa.Phi:
+					// a materialised && / || (tag-less switch): any operand
+					for _, e := range x.Edges {
+						if mentions(e, idx, d+1) {
+							return true
+						}
+					}
+				}
 				return false
 			}
-			st := an.Deref(fa.X.Type()).Underlying().(*types.Struct)
-			return st.Field(fa.Field).Name() == "Manifests"
+			return frameFns{entryIndexOf, isManifestsField, mentions}
 		}
-		// mentions: the condition reads the annotations of entry idx
-		var mentions func(v ssa.Value, idx ssa.Value, d int) bool
-		mentions = func(v ssa.Value, idx ssa.Value, d int) bool {
-			if v == nil || d > 8 {
-				return false
-			}
-			if ix, pth, ok := entryIndexOf(v); ok && ix == idx && len(pth) >= 1 && pth[0] == "Annotations" {
-				return true
-			}
-			switch x := v.(type) {
-			case *ssa.BinOp:
-				return mentions(x.X, idx, d+1) || mentions(x.Y, idx, d+1)
-			case *ssa.UnOp:
-				return mentions(x.X, idx, d+1)
-			case *ssa.Lookup:
-				return mentions(x.X, idx, d+1)
-			case *ssa.Extract:
-				return mentions(x.Tuple, idx, d+1)
-			case *ssa.Call:
-				if bi, ok := x.Call.Value.(*ssa.Builtin); ok && bi.Name() == "len" {
-					return mentions(x.Call.Args[0], idx, d+1)
-				}
-			case *ssa.ChangeType:
-				return mentions(x.X, idx, d+1)
-			case *ssa.Convert:
-				return mentions(x.X, idx, d+1)
-			case *ssa.Phi:
-				// a materialised && / || (tag-less switch): any operand
-				for _, e := range x.Edges {
-					if mentions(e, idx, d+1) {
-						return true
-					}
-				}
-			}
-			return false
-		}
+		recv := fn.Params[0]
+		ff := mkFrame(fn)
+		entryIndexOf, isManifestsField, mentions := ff.entryIndexOf, ff.isManifestsField, ff.mentions
 		requestedTag := func(v ssa.Value, seen map[ssa.Value]bool) bool {
 			return requestedTagIn(fn, refName, v, seen, func(p *ssa.Parameter) bool { return p != recv }, 0)
 		}
@@ -382,6 +411,38 @@ func runTagKeep(c *core.Ctx) {
 				unguarded = false
 			} else {
 				unguarded = reach(start)
+			}
+			// the position may come out of a finder method of the index (mi := i.findCompatible(…)): every position the
+			// finder hands out was chosen behind a test of that entry's annotations, inside the finder
+			if unguarded {
+				if fc, _ := an.CallOf(an.Origin(s.idx)); fc != nil {
+					if h := fc.Call.StaticCallee(); h != nil && h != fn && len(h.Blocks) > 0 && h.Signature.Recv() != nil && len(fc.Call.Args) > 0 && fc.Call.Args[0] == ssa.Value(recv) && h.Signature.Results().Len() == 1 {
+						hf := mkFrame(h)
+						okAll, nPos := true, 0
+						an.Instrs(h, func(in ssa.Instruction) {
+							ret, isRet := in.(*ssa.Return)
+							if !isRet || len(ret.Results) != 1 {
+								return
+							}
+							if k, isC := an.ConstInt(ret.Results[0]); isC && k < 0 {
+								return
+							}
+							nPos++
+							guarded := false
+							for _, g := range an.GuardingEdges(ret.Block()) {
+								if !g.Synthetic() && hf.mentions(g.If().Cond, ret.Results[0], 0) {
+									guarded = true
+								}
+							}
+							if !guarded {
+								okAll = false
+							}
+						})
+						if okAll && nPos > 0 {
+							unguarded = false
+						}
+					}
+				}
 			}
 			// the ‘no tag requested’ decision may have been taken by the caller: an unexported step every call of which
 			// sits behind that edge in a method of the index
